@@ -11,12 +11,12 @@ package rig
 import (
 	"fmt"
 	"os"
-	"path/filepath"
 	"regexp"
 	"strconv"
 	"strings"
 	"sync"
 	"time"
+	"verif/vlib"
 
 	"github.com/prometheus/common/model"
 )
@@ -30,6 +30,59 @@ type Wiring struct {
 	Levels                []int64       // compaction ranges in ms
 	MetaFetchConcurrency  int
 	MaxBlockIndexSize     int64
+	// CompactChain / StoreChain: the elements of the []block.MetadataFilter literals of compact.go / store.go in
+	// the order written there. The rig instantiates its fetchers in that order (an element it does not know is
+	// wiring drift), so a re-ordered chain is exercised as written instead of stopping the check.
+	CompactChain []string
+	StoreChain   []string
+	// CompactIgnoreDelayDiv: the N of `deleteDelay/N` handed to the compactor's deletion-mark filter.
+	CompactIgnoreDelayDiv int64
+}
+
+// chainLiteral returns the top-level elements of the first `[]block.MetadataFilter{...}` literal after `after`.
+func (s src) chainLiteral(what, after string) []string {
+	i := strings.Index(s.text, norm(after))
+	if i < 0 {
+		*s.errs = append(*s.errs, fmt.Sprintf("%s: %s: `%s` not found", s.name, what, norm(after)))
+		return nil
+	}
+	rest := s.text[i:]
+	j := strings.Index(rest, "[]block.MetadataFilter{")
+	if j < 0 {
+		*s.errs = append(*s.errs, fmt.Sprintf("%s: %s: filter chain literal not found", s.name, what))
+		return nil
+	}
+	rest = rest[j+len("[]block.MetadataFilter{"):]
+	var out []string
+	depth, start := 0, 0
+	for k, c := range rest {
+		switch c {
+		case '(', '{', '[':
+			depth++
+		case ')', ']':
+			depth--
+		case ',':
+			if depth == 0 {
+				if e := strings.TrimSpace(rest[start:k]); e != "" {
+					out = append(out, e)
+				}
+				start = k + 1
+			}
+		case '}':
+			if depth == 0 {
+				if e := strings.TrimSpace(rest[start:k]); e != "" {
+					out = append(out, e)
+				}
+				if len(out) == 0 {
+					*s.errs = append(*s.errs, fmt.Sprintf("%s: %s: empty filter chain", s.name, what))
+				}
+				return out
+			}
+			depth--
+		}
+	}
+	*s.errs = append(*s.errs, fmt.Sprintf("%s: %s: unterminated filter chain literal", s.name, what))
+	return nil
 }
 
 var (
@@ -110,7 +163,7 @@ func loadWiring() (Wiring, error) {
 	var errs []string
 	var w Wiring
 	read := func(rel string) src {
-		b, err := os.ReadFile(filepath.Join(repoDir(), rel))
+		b, err := vlib.ReadSource(rel)
 		if err != nil {
 			errs = append(errs, fmt.Sprintf("cannot read %s: %v", rel, err))
 		}
@@ -124,7 +177,9 @@ func loadWiring() (Wiring, error) {
 	}
 
 	// --- compact.go: fetcher filters
-	c.has("deletion-mark filter delay", `ignoreDeletionMarkFilter := block.NewIgnoreDeletionMarkFilter(logger, insBkt, deleteDelay/2, conf.blockMetaFetchConcurrency)`)
+	if n, err := strconv.ParseInt(c.capture("deletion-mark filter delay", `ignoreDeletionMarkFilter := block\.NewIgnoreDeletionMarkFilter\(logger, insBkt, deleteDelay/(\d+), conf\.blockMetaFetchConcurrency\)`), 10, 64); err == nil && n > 0 {
+		w.CompactIgnoreDelayDiv = n
+	}
 	c.has("deleteDelay binding", `deleteDelay := time.Duration(conf.deleteDelay)`)
 	c.has("dedup filter", `duplicateBlocksFilter := block.NewDeduplicateFilter(conf.blockMetaFetchConcurrency)`)
 	c.has("no-compact filter", `noCompactMarkerFilter := compact.NewGatherNoCompactionMarkFilter(logger, insBkt, conf.blockMetaFetchConcurrency)`)
@@ -132,7 +187,15 @@ func loadWiring() (Wiring, error) {
 	c.has("label shard filter", `labelShardedMetaFilter := block.NewLabelShardedMetaFilter(relabelConfig, conf.dedupReplicaLabels...)`)
 	c.has("consistency filter", `consistencyDelayMetaFilter := block.NewConsistencyDelayMetaFilter(logger, conf.consistencyDelay,`)
 	c.has("time partition filter", `timePartitionMetaFilter := block.NewTimePartitionMetaFilter(conf.filterConf.MinTime, conf.filterConf.MaxTime)`)
-	c.has("filter order", `filters := []block.MetadataFilter{ timePartitionMetaFilter, labelShardedMetaFilter, consistencyDelayMetaFilter, ignoreDeletionMarkFilter, block.NewReplicaLabelRemover(logger, dedupReplicaLabels), duplicateBlocksFilter, noCompactMarkerFilter, }`)
+	w.CompactChain = c.chainLiteral("filter chain", `filters := []block.MetadataFilter{`)
+	for _, e := range w.CompactChain {
+		switch e {
+		case "timePartitionMetaFilter", "labelShardedMetaFilter", "consistencyDelayMetaFilter", "ignoreDeletionMarkFilter",
+			"block.NewReplicaLabelRemover(logger, dedupReplicaLabels)", "duplicateBlocksFilter", "noCompactMarkerFilter":
+		default:
+			errs = append(errs, fmt.Sprintf("compact.go: filter chain element `%s` is unknown to the rig", e))
+		}
+	}
 	c.has("no-downsample filter appended last", `if !conf.disableDownsampling { filters = append(filters, noDownsampleMarkerFilter) }`)
 	c.has("listers", `case concurrentDiscovery: blockLister = block.NewConcurrentLister(logger, insBkt) case recursiveDiscovery: blockLister = block.NewRecursiveLister(logger, insBkt)`)
 	c.has("base fetcher", `baseMetaFetcher, err := block.NewBaseFetcher(logger, conf.blockMetaFetchConcurrency, insBkt, blockLister, conf.dataDir,`)
@@ -227,8 +290,18 @@ func loadWiring() (Wiring, error) {
 
 	// --- store.go: store-gateway side fetcher
 	s.has("store deletion-mark filter", `ignoreDeletionMarkFilter := block.NewIgnoreDeletionMarkFilter(logger, insBkt, time.Duration(conf.ignoreDeletionMarksDelay), conf.blockMetaFetchConcurrency)`)
-	s.has("store filter order", `[]block.MetadataFilter{ parquetConvertedBlocksFilter, block.NewTimePartitionMetaFilter(conf.filterConf.MinTime, conf.filterConf.MaxTime), block.NewLabelShardedMetaFilter(relabelConfig), block.NewConsistencyDelayMetaFilter(logger, time.Duration(conf.consistencyDelay),`)
-	s.has("store filter order tail", `ignoreDeletionMarkFilter, block.NewDeduplicateFilter(conf.blockMetaFetchConcurrency), })`)
+	w.StoreChain = s.chainLiteral("store filter chain", `block.NewMetaFetcher(`)
+	for _, e := range w.StoreChain {
+		switch {
+		case e == "parquetConvertedBlocksFilter", e == "ignoreDeletionMarkFilter",
+			e == "block.NewTimePartitionMetaFilter(conf.filterConf.MinTime, conf.filterConf.MaxTime)",
+			e == "block.NewLabelShardedMetaFilter(relabelConfig)",
+			strings.HasPrefix(e, "block.NewConsistencyDelayMetaFilter(logger, time.Duration(conf.consistencyDelay),"),
+			e == "block.NewDeduplicateFilter(conf.blockMetaFetchConcurrency)":
+		default:
+			errs = append(errs, fmt.Sprintf("store.go: filter chain element `%s` is unknown to the rig", e))
+		}
+	}
 	s.has("store meta fetcher", `metaFetcher, err := block.NewMetaFetcher(logger, conf.blockMetaFetchConcurrency, insBkt, blockLister, dataDir,`)
 	w.StoreIgnoreDelay = parseDur(&errs, "ignore-deletion-marks-delay", s.capture("ignore-deletion-marks-delay default", `Default\("([^"]+)"\)\.SetValue\(&sc\.ignoreDeletionMarksDelay\)`))
 	w.StoreConsistencyDelay = parseDur(&errs, "store consistency-delay", s.capture("store consistency-delay default", `Default\("([^"]+)"\)\.SetValue\(&sc\.consistencyDelay\)`))
